@@ -68,6 +68,31 @@ def form_check(cfg, sd, inp_name):
                     for ik in (b"Resources", b"MediaBox", b"CropBox", b"Rotate"):
                         if isinstance(pv.get(ik), Ref):
                             pushed.add((pv[ik].n, pv[ik].g))
+            # likewise the /Outlines dictionary: linearization makes a DIRECT /Outlines of the input indirect (a new object, created
+            # after the eligible set was computed; "directness of /Outlines" is writer-owned per the property text of C01)
+            rv = sd.objs.get((root.n, root.g)) if isinstance(root, Ref) else None
+            if isinstance(rv, dict) and isinstance(rv.get(b"Outlines"), Ref):
+                pushed.add((rv[b"Outlines"].n, rv[b"Outlines"].g))
+        # the pages of the document are the leaves of the page tree (a dictionary that merely carries /Type /Page somewhere else,
+        # e.g. a left-over of an earlier copy, is not a page of this document)
+        tree_pages, ptodo, pseen = set(), [], set()
+        rv = sd.objs.get((root.n, root.g)) if isinstance(root, Ref) else None
+        if isinstance(rv, dict) and isinstance(rv.get(b"Pages"), Ref):
+            ptodo.append(rv[b"Pages"])
+        while ptodo:
+            r = ptodo.pop()
+            if not isinstance(r, Ref) or (r.n, r.g) in pseen:
+                continue
+            pseen.add((r.n, r.g))
+            node = sd.objs.get((r.n, r.g))
+            if isinstance(node, dict):
+                kids = node.get(b"Kids")
+                if isinstance(kids, Ref):
+                    kids = sd.objs.get((kids.n, kids.g))
+                if isinstance(kids, list):
+                    ptodo.extend(kids)
+                else:
+                    tree_pages.add((r.n, r.g))
         # eligibility, stated independently of qpdf's walk: the objects reachable from the output's trailer through any dictionary
         # value, array element or stream dictionary (an object nothing refers to, such as the copy of the input's encryption
         # dictionary that a linearized rewrite of an encrypted input carries along, is not "eligible" by this statement)
@@ -114,7 +139,7 @@ def form_check(cfg, sd, inp_name):
                 probs.append("the encryption dictionary is compressed")
             if (lin or encrypted) and isinstance(root, Ref) and og == (root.n, root.g):
                 probs.append("the catalog is compressed in a linearized/encrypted file")
-            if lin and isinstance(v, dict) and v.get(b"Type") == Name(b"Page"):
+            if lin and og in tree_pages:
                 probs.append("a page object is compressed in a linearized file")
             if isinstance(v, dict) and b"Linearized" in v:
                 probs.append("the linearization parameter dictionary is compressed")
